@@ -372,6 +372,8 @@ type End struct {
 	// carries DetailsCode instead of Code.
 	DetailsCodeSet bool
 	DetailsCode    int32
+	// PadBase64: error details (Connect "value", grpc-status-details-bin) are written as padded base64.
+	PadBase64 bool
 	Message string
 	Details []Detail
 }
@@ -992,6 +994,15 @@ type ServerOut struct {
 	FrameEnds []int
 }
 
+// detailEncoding: binary values are base64 without padding by default; both protocols say
+// that readers must accept padded values, too.
+func detailEncoding(e *End) *base64.Encoding {
+	if e.PadBase64 {
+		return base64.StdEncoding
+	}
+	return base64.RawStdEncoding
+}
+
 // OmitCode as End.CodeStr makes a Connect error object carry no "code" member at all.
 const OmitCode = "<no code>"
 
@@ -1011,7 +1022,7 @@ func connectErrorJSON(e *End) map[string]any {
 		for _, d := range e.Details {
 			ds = append(ds, map[string]any{
 				"type":  strings.TrimPrefix(d.TypeURL, "type.googleapis.com/"),
-				"value": base64.RawStdEncoding.EncodeToString(d.Value),
+				"value": detailEncoding(e).EncodeToString(d.Value),
 			})
 		}
 		m["details"] = ds
@@ -1038,7 +1049,7 @@ func grpcStatusHeaders(e *End, into http.Header) {
 			st.Code = e.DetailsCode // a status in the details that disagrees with grpc-status
 		}
 		b, _ := proto.Marshal(st)
-		into.Set("Grpc-Status-Details-Bin", base64.RawStdEncoding.EncodeToString(b))
+		into.Set("Grpc-Status-Details-Bin", detailEncoding(e).EncodeToString(b))
 	}
 }
 
